@@ -6,6 +6,8 @@ PROP = dict(
                  env=dict(quick=dict(VERIF_CASES=300), thorough=dict(VERIF_CASES=6000))),
             dict(name="dutch-v2", go_test="TestC10", runner="C10",
                  env=dict(quick=dict(VERIF_CASES=250), thorough=dict(VERIF_CASES=5000))),
+            dict(name="dutch-v2-lend", go_test="TestC10Lend", runner="C10",
+                 env=dict(quick=dict(VERIF_CASES=60), thorough=dict(VERIF_CASES=1500))),
             dict(name="dutch-v1", go_test="TestC10V1", runner="C10-v1",
                  env=dict(quick=dict(VERIF_CASES=150), thorough=dict(VERIF_CASES=3000))),
             dict(name="dutch-v1-lend", go_test="TestC10V1Lend", runner="C10-v1",
